@@ -22,7 +22,7 @@ PAIRS = ["MetropolisChain", "GibbsChain", "PcaChain", "HamiltonianChain", "Ensem
 ENTRIES = ["take_step", "advance", "run_for", "get_parameter", "get_probabilities", "get_sample",
            "get_interval", "get_marginal", "mode", "save", "matrix_plot", "trace_plot", "plot_diagnostics"]
 FLOORS = {"key-agreement": 6, "reload-defined": 40, "save-defined": 5, "restored-value-flow": 4,
-          "state-persisted": 7, "key-pairing": 4,
+          "state-persisted": 7, "key-pairing": 6, "restored-type": 2,
           "stack-roundtrip": 2, "derived-consistent": 5, "slot-reselected": 1, "reloaded-limit-hook": 3, "ctor-arg-roundtrip": 1, "rebuilt-object-roundtrip": 3, "load-forwards-arguments": 4, "adaptation-test-survives-reload": 2, "saved-key-restored": 7}
 
 
@@ -577,6 +577,40 @@ def _keys_read_by_callees(prog, mi, lfn, dname, depth=0):
     return out
 
 
+def _helper_pairing(prog, hc, lfn, var, key_attr, rel, key_of):
+    """In the loader of a helper class every `<obj>.<attr> = conv(<archive>[key])` reads the key that was written from that very
+    attribute, and restores the Python type the constructor gives it (a float read back through int() is truncated)."""
+    wrong, lossy, n = [], [], 0
+    init = hc.methods.get("__init__")
+    ctor_vals = {}
+    if init is not None:
+        for st in ast.walk(init):
+            if isinstance(st, ast.Assign) and len(st.targets) == 1 and isinstance(st.targets[0], ast.Attribute) \
+                    and isinstance(st.targets[0].value, ast.Name) and st.targets[0].value.id == init.args.args[0].arg:
+                ctor_vals.setdefault(st.targets[0].attr, []).append(st.value)
+    for st in ast.walk(lfn):
+        if not (isinstance(st, ast.Assign) and len(st.targets) == 1 and isinstance(st.targets[0], ast.Attribute)
+                and isinstance(st.targets[0].value, ast.Name) and st.targets[0].value.id == var):
+            continue
+        keys = [key_of(x.slice) for x in ast.walk(st.value) if isinstance(x, ast.Subscript)]
+        keys = [k for k in keys if k is not None]
+        if len(keys) != 1 or keys[0] not in key_attr:
+            continue
+        n += 1
+        attr = st.targets[0].attr
+        if key_attr[keys[0]] != attr:
+            wrong.append(f"line {st.lineno}: `{U(st)[:70]}` restores {attr} from the key written from {key_attr[keys[0]]}")
+        conv = st.value.func.id if isinstance(st.value, ast.Call) and isinstance(st.value.func, ast.Name) else None
+        cv = ctor_vals.get(attr, [])
+        is_float = bool(cv) and all(isinstance(v, ast.Constant) and isinstance(v.value, float) for v in cv)
+        if conv == "int" and is_float:
+            lossy.append(f"line {st.lineno}: `{U(st)[:70]}` reads the float {attr} (constructor: {U(cv[0])}) back through int()")
+    return [struct_ob("key-pairing", f"{hc.module.name}.{hc.name}.{lfn.name}", not wrong and n > 0, "; ".join(wrong[:2]), rel, lfn.lineno,
+                      slots={"pairs_checked": n}, tier="E"),
+            struct_ob("restored-type", f"{hc.module.name}.{hc.name}.{lfn.name}", not lossy, "; ".join(lossy[:2]), rel, lfn.lineno,
+                      slots={"pairs_checked": n}, tier="E")]
+
+
 def _load_forwards(prog, ci, cname, lfn, rel):
     """What the caller hands to load (the density, its gradient) reaches the reloaded sampler under its own name: as keyword
     `posterior=posterior`, or stored as `<chain>.posterior = posterior` - never into the slot / attribute of another argument."""
@@ -712,6 +746,12 @@ def run(prog, tier):
                          f"Parameter attributes mutated by stepping but not saved+restored: {lost}", rel, gi.lineno,
                          slots={"mutated": sorted(pwrites), "saved": len(saved_attrs), "restored": len(restored)}))
     obs.append(_slot_reselected(prog, pc, ld, var, rel))
+    # key pairing and type restoration of the two helper classes (Parameter: suffix -> attribute; EpsilonSelector: key == attribute)
+    obs.extend(_helper_pairing(prog, pc, ld, var, {sfx: U(v).split(".", 1)[1] for sfx, v in wvals.items() if U(v).startswith("self.")}, rel,
+                               lambda sl: (lambda sk: sk[1] if sk is not None else None)(
+                                   (sl.values[0].value, sl.values[1].value) if isinstance(sl, ast.JoinedStr) and len(sl.values) == 2
+                                   and isinstance(sl.values[1], ast.Constant) else
+                                   (sl.left, sl.right.value) if isinstance(sl, ast.BinOp) and isinstance(sl.right, ast.Constant) else None)))
     # the step-size / width adaptation tests `~(lo < rate < hi)`: after load the accumulators are Python floats, so the test only
     # keeps its meaning if one side of each comparison is certainly a numpy value
     obs.extend(invert_hazard_obligations(prog, "adaptation-test-survives-reload", ["inference/mcmc/gibbs.py", "inference/mcmc/hmc/epsilon.py"]))
@@ -726,6 +766,8 @@ def run(prog, tier):
     es_restored = prog.attrs_assigned_in(li)
     obs.append(struct_ob("key-agreement", qual(es, li), es_read <= es_attrs and bool(es_read),
                          f"EpsilonSelector.load_items reads {sorted(es_read - es_attrs)} not in __dict__", erel, li.lineno))
+    obs.extend(_helper_pairing(prog, es, li, li.args.args[0].arg, {a: a for a in es_attrs}, erel,
+                               lambda sl: sl.value if isinstance(sl, ast.Constant) and isinstance(sl.value, str) else None))
     # saved => restored: whatever get_items / __dict__ writes is read back (a value that is saved but never read leaves the reloaded
     # object at its constructor default: its limits, its target rate, its step-size state are then not those that were saved)
     unread = sorted(set(written) - set(read))
